@@ -38,7 +38,9 @@ import (
 
 	"github.com/coreos/pkg/capnslog"
 	"github.com/youzan/ZanRedisDB/pkg/fileutil"
+	"github.com/youzan/ZanRedisDB/pkg/pbutil"
 	"github.com/youzan/ZanRedisDB/raft/raftpb"
+	snappkg "github.com/youzan/ZanRedisDB/snap"
 	"github.com/youzan/ZanRedisDB/wal"
 	"github.com/youzan/ZanRedisDB/wal/walpb"
 	"zrverif/trace"
@@ -73,6 +75,19 @@ type wLife struct {
 	Ents []wEnt `json:"ents"`
 	Err  string `json:"err"`
 	Res  wRes   `json:"res"`
+}
+type wFile struct {
+	I  int  `json:"i"`
+	T  int  `json:"t"`
+	OK bool `json:"ok"`
+	X  int  `json:"x"`
+}
+type wSnapFile struct {
+	name string
+	i, t int
+	x    int
+	data []byte
+	msg  []byte // the marshalled raftpb.Snapshot that was saved
 }
 type wValid struct {
 	Err   string  `json:"err"`
@@ -129,7 +144,12 @@ type walDrv struct {
 	where                                              string
 	typeFlips, misname, entiLost, procOnly, hole0      bool
 	purgedRecs, nPurged, nReleases, nSyncs             int
-	segFirst, lifeAll                                  bool
+	segFirst, lifeAll, snapOn                          bool
+	snapDir                                            string
+	ss                                                 *snappkg.Snapshotter
+	snapFiles                                          []wSnapFile
+	snapX, nSnapImgs                                   int
+	bySnapMode                                         map[string]int
 	lifeX, nLives                                      int
 	nConcBatches                                       int
 	maxEntBytes                                        int
@@ -552,6 +572,95 @@ func (d *walDrv) emitImage(kind string, off int64, segs []*wSeg, tailImg []byte,
 			}
 		}
 	}
+	files := []wFile{}
+	picked := wSnap{-2, -2}
+	pdata := 0
+	smode := ""
+	if d.snapOn {
+		// the snapshot directory of the image: as it is, or with the newest file torn / empty /
+		// flipped / gone, or with a file whose marker never reached the log; then the restart's
+		// own choice: LoadNewestAvailable(ValidSnapshotEntries(...))
+		sdir := d.imgDir + "-snap"
+		os.MkdirAll(sdir, 0755)
+		defer os.RemoveAll(sdir)
+		smode = []string{"asis", "asis", "torn", "empty", "flip", "gone", "orphan", "torn+older-flip"}[d.rng.Intn(8)]
+		nf := len(d.snapFiles)
+		for k, f := range d.snapFiles {
+			b := f.data
+			ok := true
+			newest := k == nf-1
+			switch {
+			case newest && (smode == "torn" || smode == "torn+older-flip") && len(b) > 1:
+				b = b[:d.rng.Intn(len(b))]
+				ok = false
+			case newest && smode == "empty":
+				b = nil
+				ok = false
+			case (newest && smode == "flip") || (k == nf-2 && smode == "torn+older-flip"):
+				b = append([]byte(nil), b...)
+				b[d.rng.Intn(len(b))] ^= 1 << uint(d.rng.Intn(8))
+				ok = false
+				// a flipped bit the format does not look at (e.g. above bit 31 of the crc varint)
+				// leaves an intact file: intact = it still reads back with exactly the saved content
+				tmp := filepath.Join(sdir, "probe.tmp")
+				ioutil.WriteFile(tmp, b, 0600)
+				if sn, err := snappkg.Read(tmp); err == nil && sn != nil && bytes.Equal(pbutil.MustMarshal(sn), f.msg) {
+					ok = true
+				}
+				os.Remove(tmp)
+			case newest && smode == "gone":
+				continue
+			}
+			ioutil.WriteFile(filepath.Join(sdir, f.name), b, 0600)
+			files = append(files, wFile{f.i, f.t, ok, f.x})
+		}
+		if smode == "orphan" {
+			oi, ot := d.maxMark+1+d.rng.Intn(3), wMax(d.lastHS.T, 1)
+			if nf > 0 && d.snapFiles[nf-1].t > ot {
+				ot = d.snapFiles[nf-1].t
+			}
+			d.snapX++
+			x := 2<<20 + d.snapX
+			data := d.payload(x, 60)
+			d.byHash[sha1.Sum(data)] = x
+			snappkg.New(sdir).SaveSnap(raftpb.Snapshot{Data: data, Metadata: raftpb.SnapshotMetadata{Index: uint64(oi), Term: uint64(ot),
+				ConfState: raftpb.ConfState{Nodes: []uint64{1, 2, 3}}}})
+			files = append(files, wFile{oi, ot, true, x})
+		}
+		picked = wSnap{-1, -1}
+		if v.Err == "" {
+			var ws []walpb.Snapshot
+			for _, m := range v.Snaps {
+				ws = append(ws, walpb.Snapshot{Index: uint64(m.I), Term: uint64(m.T)})
+			}
+			func() {
+				defer func() {
+					if e := recover(); e != nil {
+						picked = wSnap{-3, -3}
+					}
+				}()
+				sn, err := snappkg.New(sdir).LoadNewestAvailable(ws)
+				if err == nil && sn != nil {
+					picked = wSnap{int(sn.Metadata.Index), int(sn.Metadata.Term)}
+					x, ok := d.byHash[sha1.Sum(sn.Data)]
+					if !ok {
+						x = -1
+					}
+					if len(sn.Metadata.ConfState.Nodes) != 3 {
+						x = -2
+					}
+					pdata = x
+				}
+			}()
+			// the node opens the log at the snapshot it loaded, or at the beginning
+			snap = wSnap{}
+			if picked.I >= 0 {
+				snap = picked
+			}
+		}
+		d.nSnapImgs++
+		d.bySnapMode[smode]++
+	}
 	ver := d.verify(d.imgDir, snap)
 	res, rep, _ := d.reopen(d.imgDir, snap, false)
 	res2 := res
@@ -646,7 +755,8 @@ func (d *walDrv) emitImage(kind string, off int64, segs []*wSeg, tailImg []byte,
 	}
 	pan := strings.HasPrefix(life.Err, "PANIC") || strings.HasPrefix(life.Res.Err, "PANIC") || strings.HasPrefix(res.Err, "PANIC") || strings.HasPrefix(res2.Err, "PANIC") || strings.HasPrefix(v.Err, "PANIC") || strings.HasPrefix(ver, "PANIC")
 	d.tw.Emit(trace.M{"ev": "image", "panic": pan, "kind": mk, "how": kind, "hasmarker": hasMarker, "where": where, "segfirst": d.segFirst || (kind == "hole" && flipRec == d.purgedRecs+2), "dur": d.durCount(segs), "off": off, "n": n, "tail": tail, "flip": flipRec,
-		"snap": snap, "valid": v, "verify": ver, "res": res, "rep": rep, "res2": res2, "life": life})
+		"snap": snap, "valid": v, "verify": ver, "res": res, "rep": rep, "res2": res2, "life": life,
+		"snapon": d.snapOn, "files": files, "picked": picked, "pdata": pdata, "smode": smode})
 	d.nImages++
 	d.byKind[kind]++
 	d.byTail[tail]++
@@ -977,6 +1087,12 @@ func (d *walDrv) history(calls []wCall, dense bool, imgEvery int) {
 	d.lastHS = wHS{}
 	d.entiLost, d.lastEnt, d.maxMark = false, 0, 0
 	d.purgedRecs = 0
+	d.snapFiles = nil
+	if d.snapOn {
+		d.snapDir = filepath.Join(hd, "snap")
+		os.MkdirAll(d.snapDir, 0755)
+		d.ss = snappkg.New(d.snapDir)
+	}
 	d.w = nil
 	d.nHist++
 	wal.SegmentSizeBytes = d.segSize
@@ -1033,6 +1149,21 @@ func (d *walDrv) history(calls []wCall, dense bool, imgEvery int) {
 				d.saved = append(d.saved, c.snap)
 				if c.snap.I > d.maxMark {
 					d.maxMark = c.snap.I
+				}
+				if d.snapOn && c.snap.I > 0 {
+					// as raftPersistStorage.SaveSnap: the snapshot file first, the marker second
+					d.snapX++
+					x := 2<<20 + d.snapX
+					data := d.payload(x, 40+d.rng.Intn(400))
+					d.byHash[sha1.Sum(data)] = x
+					sn := raftpb.Snapshot{Data: data, Metadata: raftpb.SnapshotMetadata{Index: uint64(c.snap.I), Term: uint64(c.snap.T),
+						ConfState: raftpb.ConfState{Nodes: []uint64{1, 2, 3}}}}
+					if err = d.ss.SaveSnap(sn); err != nil {
+						break
+					}
+					name := fmt.Sprintf("%016x-%016x.snap", c.snap.T, c.snap.I)
+					b, _ := ioutil.ReadFile(filepath.Join(d.snapDir, name))
+					d.snapFiles = append(d.snapFiles, wSnapFile{name, c.snap.I, c.snap.T, x, b, pbutil.MustMarshal(&sn)})
 				}
 				err = d.w.SaveSnapshot(walpb.Snapshot{Index: uint64(c.snap.I), Term: uint64(c.snap.T)})
 			case "release":
@@ -1701,6 +1832,7 @@ func walsim(args []string) error {
 	nconc := fs.Int("conc", 0, "number of histories in which Save and SaveSnapshot/ReleaseLockTo run in two goroutines")
 	lifeAll := fs.Bool("lifeall", false, "a second life (reopen, save on, reopen) after every damaged image, not every second one")
 	bigBatch := fs.Bool("bigbatch", false, "scripted histories with Saves of 8..21 entries that span several pages (torn multi-page batches)")
+	snapFiles := fs.Bool("snapfiles", false, "keep a real snap.Snapshotter directory next to the log (file first, marker second), damage it in the images and let LoadNewestAvailable pick the snapshot to open at")
 	purgeStage := fs.Bool("purge", false, "scripted histories around wal.Sync / ReleaseLockTo / the background purge / restarts")
 	hole0 := fs.Bool("hole0", false, "isolate stage of C05-crc-chain-vacuous-after-first-crc: only images whose first segment keeps nothing but its leading crc record")
 	typeFlips := fs.Bool("typeflips", false, "only bit flips in the record-type bytes (isolate stage of C05-record-type-unprotected)")
@@ -1708,6 +1840,7 @@ func walsim(args []string) error {
 	fs.Parse(args)
 	capnslog.SetGlobalLogLevel(capnslog.CRITICAL)
 	wal.VerifQuiet()
+	snappkg.VerifQuiet()
 	scratch := os.Getenv("ZR_SCRATCH")
 	if scratch == "" {
 		return fmt.Errorf("ZR_SCRATCH not set")
@@ -1720,7 +1853,7 @@ func walsim(args []string) error {
 		return err
 	}
 	d := &walDrv{tw: tw, scratch: scratch, byKind: map[string]int{}, byTail: map[string]int{}, byOutcome: map[string]int{},
-		maxImgPerCall: *maxImg, typeFlips: *typeFlips, misname: *misname, hole0: *hole0, lifeAll: *lifeAll}
+		maxImgPerCall: *maxImg, typeFlips: *typeFlips, misname: *misname, hole0: *hole0, lifeAll: *lifeAll, snapOn: *snapFiles, bySnapMode: map[string]int{}}
 	k := 0
 	nsim := 0
 	if *sim != "" {
@@ -1843,6 +1976,6 @@ func walsim(args []string) error {
 	tw.Close()
 	summary(map[string]interface{}{"driver": "walsim", "part": *part, "histories": d.nHist, "sim_histories": nsim,
 		"calls": d.nCalls, "cuts": d.nCuts, "restarts": d.nRestarts, "images": d.nImages, "by_kind": d.byKind,
-		"by_tail": d.byTail, "by_outcome": d.byOutcome, "repaired": d.nRepaired, "big_entries": d.nBigEnts, "segments_purged": d.nPurged, "second_lives": d.nLives, "concurrent_batches": d.nConcBatches, "releases": d.nReleases, "syncs": d.nSyncs, "max_entry_bytes": d.maxEntBytes, "events": tw.N})
+		"by_tail": d.byTail, "by_outcome": d.byOutcome, "repaired": d.nRepaired, "big_entries": d.nBigEnts, "segments_purged": d.nPurged, "snapshot_dir_images": d.nSnapImgs, "by_snapshot_damage": d.bySnapMode, "second_lives": d.nLives, "concurrent_batches": d.nConcBatches, "releases": d.nReleases, "syncs": d.nSyncs, "max_entry_bytes": d.maxEntBytes, "events": tw.N})
 	return nil
 }
